@@ -249,7 +249,7 @@ func suiteChunk(prop, only, tier string, seed uint64, model string) *Report {
 	}
 	nDocs, grid := 700, 6
 	if tier == "thorough" {
-		nDocs, grid = 9000, 21
+		nDocs, grid = 2200, 12 // every job is held in memory together with its model answer: 9000 documents need more than 12 GB
 	}
 	n := 0
 	gridNumbers(grid, func(s string) {
